@@ -184,17 +184,26 @@ def k_crh(ctx):
         ctx.check("linear-in-q", _eq(ctx, c2, lam * c1))
 
 
-@harness("C14.p2z", cases=lambda tier: [2, 3, (2, "int"), (3, "int")] + ([4] if tier == "thorough" else []),
-         expect=lambda c: ["starts-at-0", "strictly-increasing", "length"])
+@harness("C14.p2z", cases=lambda tier: [2, 3, (2, "int"), (3, "int"), (3, "iso")] + ([4, (4, "iso"), (5, "iso")] if tier == "thorough" else []),
+         expect=lambda c: ["starts-at-0", "strictly-increasing", "length"]
+         + (["isothermal-layer-is-the-trapezoid-of-(RT/g)dp/p"] if isinstance(c, tuple) and c[1] == "iso" else []))
 def k_p2z(ctx):
-    """real-valued pressures, and pressures given as an integer-dtype array (e.g. levels in Pa)"""
-    integer = isinstance(ctx.case, tuple)
-    n = ctx.case[0] if integer else ctx.case
+    """real-valued pressures, pressures given as an integer-dtype array (e.g. levels in Pa), and an
+    isothermal column: every layer is (R T / g) * 2 (p_i - p_i+1) / (p_i + p_i+1), the trapezoidal
+    value of the integral of (R T / g) dp / p = (R T / g) ln(p_i / p_i+1) (the (1,1)-Pade term of the logarithm;
+    the convergence to the logarithm itself is a limit and outside the claim)"""
+    integer = isinstance(ctx.case, tuple) and ctx.case[1] == "int"
+    iso = isinstance(ctx.case, tuple) and ctx.case[1] == "iso"
+    n = ctx.case[0] if isinstance(ctx.case, tuple) else ctx.case
     if integer:
         p = ctx.int_array("p", n, lo=1, hi=110000)
     else:
         p = ctx.real_array("p", n, lo=0, lo_open=True)
-    T = ctx.real_array("T", n, lo=0, lo_open=True)
+    if iso:
+        T0 = ctx.real("Tiso", lo=0, lo_open=True)
+        T = np.array([T0] * n, dtype=object if ctx.sym else float)
+    else:
+        T = ctx.real_array("T", n, lo=0, lo_open=True)
     for i in range(n - 1):
         ctx.assume(p[i + 1] < p[i])
     with _env(ctx):
@@ -206,6 +215,18 @@ def k_p2z(ctx):
     ctx.check("starts-at-0", z[0] == 0)
     for i in range(n - 1):
         ctx.check("strictly-increasing", z[i + 1] > z[i])
+    if iso:
+        from fractions import Fraction
+        R, g = constants.gas_constant_dry_air, constants.g
+        for i in range(n - 1):
+            if ctx.sym:
+                Rq, gq = Q.of(R), Q.of(g)          # the same float -> rational lift the code's own products get
+                pi, pj = Q.of(p[i]), Q.of(p[i + 1])
+                want = Rq * Q.of(T0) * 2 * (pi - pj) / (gq * (pi + pj))
+                ctx.check("isothermal-layer-is-the-trapezoid-of-(RT/g)dp/p", poly_eq(Q.of(z[i + 1]) - Q.of(z[i]), want))
+            else:
+                want = R * T0 * 2 * (p[i] - p[i + 1]) / (g * (p[i] + p[i + 1]))
+                ctx.check("isothermal-layer-is-the-trapezoid-of-(RT/g)dp/p", ctx.close(z[i + 1] - z[i], want, rel=1e-9))
 
 
 PLAN = {
@@ -215,9 +236,10 @@ PLAN = {
                  "opts": {"query_timeout_ms": 120000}},
 }
 BOUNDS = {"quick": {"integrate_column": "1-D n <= 4 levels; 2-D shapes (2,3), (3,2) along both axes; all real y, x",
-                    "iwv / crh / pressure2height": "n <= 3 levels, strictly decreasing p > 0, T > 0, vmr, q in [0,1)"},
-          "thorough": {"integrate_column": "1-D n <= 8; adds shapes (2,2,2), (3,2,2), (4,3)", "iwv / p2z": "n <= 4"}}
-OUTSIDE = ["convergence of the two IWV formulations to each other and of pressure2height to (RT/g) ln(p0/p) (limits)",
+                    "iwv / crh / pressure2height": "n <= 3 levels, strictly decreasing p > 0, T > 0 (arbitrary profile, and isothermal with any T), vmr, q in [0,1)"},
+          "thorough": {"integrate_column": "1-D n <= 8; adds shapes (2,2,2), (3,2,2), (4,3)", "iwv / p2z": "n <= 4; isothermal n <= 5"}}
+OUTSIDE = ["convergence of the two IWV formulations to each other and of pressure2height to (RT/g) ln(p0/p) (limits; the isothermal layer "
+           "thickness is decided to be the trapezoidal value of that integral)",
            "standard_atmosphere (scipy interp1d)", "grids beyond the level bound", "floating point"]
 STUBS = ["np proxy (np.trapezoid, diff, cumsum, hstack run for real on object arrays)",
          "e_eq_mixed_mk -> arbitrary positive function of T inside column_relative_humidity",
